@@ -90,9 +90,45 @@ class C09(core.Check):
                                            tight=rng.random() < 0.3))
         return out
 
+    def gap_sessions(self, n, rng):
+        """a position whose liquidation price is JUMPED OVER between two 1m candles (never traded): inside a fast-mode
+        chunk, on a chunk boundary, or in the normal simulator; long and short; the candles afterwards stay beyond it"""
+        out = []
+        for _ in range(n):
+            lev = rng.choice([5, 10, 20, 25])
+            side = rng.choice(['long', 'short'])
+            sg = 1 if side == 'long' else -1
+            fast = rng.random() < 0.7
+            tf = rng.choice(['5m', '5m', '15m', '3m']) if fast else rng.choice(['1m', '5m'])
+            m = engcorr.TFM[tf]
+            entry = 100.0
+            liq = entry * (1 - sg * (1 / lev - 0.004))
+            step = 0.125
+            near = round((liq + sg * rng.choice([0.25, 0.5, 1.0])) / step) * step          # last price before the jump
+            far = round((liq - sg * rng.choice([0.25, 0.5, 1.0, 2.0])) / step) * step      # first price after it
+            n_rows = m * rng.choice([3, 4]) if m >= 3 else 12
+            jump_at = m + rng.randrange(1, n_rows - m - 1)       # the row that opens beyond the liquidation price
+            rows = []
+            for i in range(n_rows):
+                if i < m:
+                    rows.append((entry, entry, entry, entry, 1.0))
+                elif i < jump_at:
+                    lo, hi = min(entry, near), max(entry, near)
+                    o = entry if i == m else near
+                    rows.append((o, near, max(o, near, hi if i == m else near), min(o, near, lo if i == m else near), 2.0))
+                else:
+                    rows.append((far, far, far + (0.125 if sg < 0 else 0), far - (0.125 if sg > 0 else 0), 3.0))
+            script = {side: {'every': 100000, 'phase': 0, 'rows': [(1.0, 0.0)]}}
+            out.append({'kind': 'futures', 'balance': 100_000, 'fee': rng.choice([0, 1 / 1024]), 'leverage': lev, 'isolated': True,
+                        'fast': fast, 'syms': ['BTC-USDT'], 'routes': [('BTC-USDT', tf)], 'droutes': [], 'n': n_rows,
+                        'scripts': {'BTC-USDT': script}, 'rows': {'BTC-USDT': rows}, 'candle_seed': rng.randrange(1 << 30),
+                        'vol': 0, 'gap_prob': 1})
+        return out
+
     def engine_correspondence(self, res, boost):
         rng = random.Random(self.seed * 7919 + 9)
-        engcorr.compare_sessions(res, self.engine_sessions(self.budget(100, 700, boost), rng))
+        engcorr.compare_sessions(res, self.engine_sessions(self.budget(100, 700, boost), rng)
+                                 + self.gap_sessions(self.budget(30, 300, boost), rng))
 
     def trigger_oracle(self, res, boost):
         """on real traces: a force-close happens at the end of a minute (chunk) iff the position is still open after
@@ -100,7 +136,7 @@ class C09(core.Check):
         closing side for the whole position at the bankruptcy price; the loss is the initial margin plus fees"""
         M = 60_000
         rng = random.Random(self.seed * 104729 + 9)
-        for sess in self.engine_sessions(self.budget(180, 1200, boost), rng):
+        for sess in self.engine_sessions(self.budget(180, 1200, boost), rng) + self.gap_sessions(self.budget(60, 600, boost), rng):
             cands = engcorr.candles_of(sess)
             ev, tr, err = engcorr.run_real(sess, cands)
             res.count('sessions:' + ('fast' if sess['fast'] else 'step') + (':isolated' if sess['isolated'] else ':cross'))
@@ -207,7 +243,7 @@ class C09(core.Check):
     @staticmethod
     def desc(sess):
         return {'session': {kk: sess[kk] for kk in ('kind', 'fee', 'leverage', 'isolated', 'fast', 'routes', 'droutes', 'n',
-                                                    'scripts', 'candle_seed', 'vol', 'gap_prob')}}
+                                                    'scripts', 'candle_seed', 'vol', 'gap_prob', 'rows') if kk in sess}}
 
     def oracle(self, res, boost):
         jesse_env.setup()
